@@ -30,20 +30,21 @@ def _attr_hook(base, attr, interp):
     return None
 
 
-def run(repo, statuses, json_mode, order=None, targets=None, texts=None):
+def run(repo, statuses, json_mode, order=None, targets=None, texts=None, parse=None, port=22):
     """statuses: per-target exit status, in submission order.  order: completion order (indices).  -> {'returned', 'prints': [(text, end)], 'submitted': [(host, port)]}"""
     from props._renderer import codes
     mn = repo.func('ssh_audit', 'main')
     n = len(statuses)
     targets = targets or ['host%d' % i for i in range(n)]
     order = list(order) if order is not None else list(range(n))
-    aconf = Tok('<aconf>', {'json': json_mode, 'manual': False, 'lookup': '', 'target_list': list(targets), 'threads': 4, 'port': 22, 'verbose': False, 'debug': False, 'json_print_indent': False,
+    aconf = Tok('<aconf>', {'json': json_mode, 'manual': False, 'lookup': '', 'target_list': list(targets), 'threads': 4, 'port': port, 'verbose': False, 'debug': False, 'json_print_indent': False,
                             'host': '', 'target_file': 'targets.txt'})
     env = dict(codes(repo))
     env.update({'sys.platform': 'linux', 'sys.modules': {}, 'sys.argv': ['ssh-audit']})
     futures = []
     prints = []
     submitted = []
+    parsed = []
 
     def hook(call, e, interp):
         t = call_name(call) or unparse(call.func)
@@ -54,6 +55,15 @@ def run(repo, statuses, json_mode, order=None, targets=None, texts=None):
             return (True, aconf)
         if t == 'Utils.parse_host_and_port':
             v = interp.value(call.args[0], e)
+            dp = None
+            for k in call.keywords:
+                if k.arg == 'default_port':
+                    dp = interp.value(k.value, e)
+            if len(call.args) > 1:
+                dp = interp.value(call.args[1], e)
+            parsed.append((v, dp))
+            if parse is not None:
+                return (True, parse(v, dp))
             return (True, (v, 22))
         if isinstance(f, ast.Attribute) and f.attr == 'submit':
             vals = [interp.value(a, e) for a in call.args[1:]]
@@ -106,4 +116,4 @@ def run(repo, statuses, json_mode, order=None, targets=None, texts=None):
     if len(finals) != 1 or finals[0].get('<forks>'):
         raise AnalysisError('main(): the multi-target run does not evaluate on a single path (forks %s)' % [f.get('<forks>') for f in finals][:2])
     fe = finals[0]
-    return {'returned': fe.get('<return>'), 'prints': fe.get('<prints>', []), 'submitted': submitted, 'crash': fe.get('<crash>')}
+    return {'returned': fe.get('<return>'), 'prints': fe.get('<prints>', []), 'submitted': submitted, 'crash': fe.get('<crash>'), 'parsed': parsed}
